@@ -159,10 +159,20 @@ def _option_none_edges(fn, tyfrag):
         for s_ in b['stmts']:
             if s_['k'] == 'assign' and not s_['pl']['p'] and s_['pl']['l'] == t['discr']['pl']['l'] and s_['rv']['k'] == 'discr':
                 ty = clean_ty(fn.local_ty(s_['rv']['pl']['l'])) if not s_['rv']['pl']['p'] else clean_ty(s_['rv']['pl']['ty'])
-                if 'Option<' in ty and tyfrag in ty:
+                if 'Option<' in ty and tyfrag in ty and not ty.startswith('core::ops::control_flow::ControlFlow<'):
                     tg = dict((str(v), tb) for v, tb in t['targets'])
                     none_t = tg.get('0', t['otherwise'])
                     out.add((bb, none_t))
+                elif ty.startswith('core::ops::control_flow::ControlFlow<') and not s_['rv']['pl']['p']:
+                    # `opt?`: the ControlFlow comes from Try::branch(opt); its Break edge is opt's None edge
+                    for d_ in fn.defs().get(s_['rv']['pl']['l'], []):
+                        if d_[0] == 'call' and (d_[2]['func'].get('fn') or '') == 'core::ops::try_trait::Try::branch' and d_[2]['args'] and d_[2]['args'][0]['k'] != 'const':
+                            oty = clean_ty(d_[2]['args'][0]['pl']['ty'])
+                            if 'Option<' in oty and tyfrag in oty:
+                                tg = dict((str(v), tb) for v, tb in t['targets'])
+                                brk = tg.get('1', t['otherwise'] if '0' in tg else None)
+                                if brk is not None:
+                                    out.add((bb, brk))
     return out
 
 
